@@ -89,6 +89,32 @@ def check(jp, rec, text, src):
     if got not in want:
         wit["expected_line_column"] = sorted(want)
         wit["observed_line_column"] = list(got)
+        if rec.viol_counts.get("line-column-mismatch", 0) == 0 and not getattr(rec, "_shrinking", False):
+            from ..shrink import shrink_text
+
+            class _Probe:
+                def __init__(self):
+                    self.viol_counts = {"line-column-mismatch": 1}
+                    self.hit = False
+                    self._shrinking = True
+
+                def monitor(self, *a):
+                    pass
+
+                def feat(self, *a):
+                    pass
+
+                def violation(self, key, w):
+                    self.hit = self.hit or key == "line-column-mismatch"
+
+            def still(t):
+                p = _Probe()
+                check(jp, p, t, src)
+                return p.hit
+            small = shrink_text(text, still, budget=150)
+            if small != text:
+                p = _Probe()
+                wit["minimised_query"] = small
         rec.violation("line-column-mismatch", wit)
         return False
     return lf_before > 0
